@@ -14,7 +14,10 @@ PID = "C05"
 # handler behaviours (index 0 is the default)
 BEH = ["none", "True", "False", "EventHalt", "EventRemove", "EventHaltAndRemove",
        "raise", "re-sub-p0", "re-sub-p1", "re-unsub-next", "re-unsub-first", "re-raise", "re-unsub-first-token", "re-drop-weak",
-       "re-clear"]
+       "re-clear",
+       # extended list (only offered where World.nbeh says so: the return-protocol family)
+       "EventContinue", "halt-attr", "halt-attr-cont", "raise-revent"]
+NBEH0 = 15        # the behaviours offered in the first four families
 NH = 3            # handler identities available to top-level ops (+ fresh ones for re-sub)
 
 
@@ -121,12 +124,22 @@ class World (object):
     self.two = two
     self.forms = False        # third family: the full product of subscription options x API forms
     self.frozen = False
+    self.nbeh = NBEH0
+    self.proto = False        # fifth family: return-value protocol
+    self.spell = False        # fourth family: positional spellings + the remaining wiring APIs
+    self.OwnerM = None
 
   # ----- handlers -----------------------------------------------------------
   def owner (self, hid):
     o = self.owners.get(hid)
     if o is None:
-      o = Owner(); o.hid = hid; o.world = self
+      if self.forms:
+        # (the wiring families: the owner is itself an EventMixin, so that it has listenTo())
+        if self.OwnerM is None: self.OwnerM = type("Owner", (Owner, self.rv.EventMixin), {})
+        o = self.OwnerM()
+      else:
+        o = Owner()
+      o.hid = hid; o.world = self
       self.owners[hid] = o
     return o
 
@@ -201,7 +214,7 @@ class World (object):
     inflight = [s for s in self.subs if s.alive and s.hid == hid and s.etype == d.etype and s.once]
     for s in inflight: s.spent = "inflight"
     try:
-      return self.behave(d, hid)
+      return self.behave(d, hid, event)
     finally:
       # model: a one-shot subscription is spent once its invocation completes; a handler
       # that asked to be removed is gone when it returns
@@ -209,12 +222,16 @@ class World (object):
       for s in self.subs:
         if s.alive and s.hid == hid and s.etype == d.etype and (s.once or selfrm):
           s.alive = False
+          # the same subscription may be waiting for its turn in an enclosing delivery of a re-entrant raise: there
+          # "invoked exactly once per raise" and "never invoked again" contradict each other - either way is accepted
+          for outer in self.stack[:-1]:
+            if s in outer.snapshot: outer.events.append(("rm", s.hid))
 
-  def behave (self, d, hid):
+  def behave (self, d, hid, event=None):
     if self.frozen:           # teardown probes: every handler just returns None (no choice point)
       self.hist.append("  h%d invoked -> none" % hid)
       return None
-    b = self.ctx.choose(len(BEH), "beh@h%d" % hid)
+    b = self.ctx.choose(self.nbeh, "beh@h%d" % hid)
     name = BEH[b]
     if b: self.feats.add("beh." + name)
     self.hist.append("  h%d invoked -> %s" % (hid, name))
@@ -225,9 +242,19 @@ class World (object):
     if name == "EventRemove": self.mark_remove(d, hid); return self.rv.EventRemove
     if name == "EventHaltAndRemove":
       self.mark_remove(d, hid); self.mark_halt(d); return self.rv.EventHaltAndRemove
+    if name == "EventContinue": return self.rv.EventContinue
+    if name == "halt-attr":
+      # the handler halts the event through its public attribute (the one raisers read back) and returns nothing
+      event.halt = True; d.events.append(("halt-attr",)); return None
+    if name == "halt-attr-cont":
+      event.halt = True; d.events.append(("halt-attr",)); return self.rv.EventContinue
     if name == "raise":
       d.events.append(("exc",))
       raise ValueError("handler %d fails" % hid)
+    if name == "raise-revent":
+      # the handler fails with the library's own exception type (as a nested raise of an undeclared event would)
+      d.events.append(("exc",)); d.events.append(("exc-revent",))
+      raise self.rv.ReventError("handler %d fails" % hid)
     if name in ("re-sub-p0", "re-sub-p1"):
       nh = self.next_fresh; self.next_fresh += 1
       self.do_sub(nh, d.etype, 1 if name.endswith("1") else 0, "plain", during=d)
@@ -281,6 +308,8 @@ class World (object):
     added = set(e[1] for e in d.events if e[0] == "add")
     if any(e[0] == "halt" for e in d.events):
       self.fail("invoked-after-halt", "handler %d invoked after the event was halted" % hid)
+    if any(e[0] == "halt-attr" for e in d.events):
+      self.fail("halt-attribute-ignored", "handler %d invoked after an earlier handler halted the event by setting event.halt = True" % hid)
     if hid in invoked:
       self.fail("invoked-twice", "handler %d invoked twice in one delivery" % hid)
     if hid in added:
@@ -299,7 +328,7 @@ class World (object):
 
   def end_delivery (self, d, raised):
     invoked = [e[1] for e in d.events if e[0] == "inv"]
-    halted = any(e[0] == "halt" for e in d.events)
+    halted = any(e[0] in ("halt", "halt-attr") for e in d.events)
     exc = any(e[0] == "exc" for e in d.events)
     removed = set(e[1] for e in d.events if e[0] == "rm")
     if not halted and not exc and not raised:
@@ -308,9 +337,10 @@ class World (object):
           self.fail("skipped", "handler %d was subscribed when %s was raised but never invoked" % (s.hid, d.etype))
 
   # ----- operations ---------------------------------------------------------
-  def do_sub (self, hid, etype, prio, mode, during=None, form=None, once=False, weak=False):
+  def do_sub (self, hid, etype, prio, mode, during=None, form=None, once=False, weak=False, pos=False):
     """mode: the four legacy spellings (first two families: addListener / addListenerByName on the method 'h').
-    form (third family): which API makes the subscription, on the method named after the event."""
+    form (third and fourth family): which API makes the subscription, on the method named after the event;
+    pos: every optional argument is given positionally, in the documented order, instead of by keyword."""
     o = self.owner(hid)
     et = self.E[etype]
     if form is None:
@@ -318,25 +348,40 @@ class World (object):
       once = (mode == "once"); weak = (mode == "weak")
       meth = "h"
     else:
-      meth = "_handle_px_E1" if form == "bind-px" else "_handle_" + etype
+      meth = "_handle_px_E1" if form in PX_FORMS else "_handle_" + etype
     h = getattr(o, meth)
+    once = bool(once); weak = bool(weak)
     kw = {}
     if prio: kw["priority"] = prio
     if once: kw["once"] = True
     if weak: kw["weak"] = True
     names = [etype]
     src = self.src
+    px = "px" if form in PX_FORMS else ""
+    if form in AUTO_FORMS:
+      kw.pop("once", None)
+      if px:
+        if not pos: kw["prefix"] = px
+      else: names = ["E1", "E2"]                                              # every _handle_<Event> method of the owner
     try:
-      if form == "class": toks = [src.addListener(et, h, **kw)]
-      elif form == "byname": toks = [src.addListenerByName(etype, h, **kw)]
-      elif form == "al-type": toks = [src.add_listener(h, event_type=et, **kw)]
-      elif form == "al-name": toks = [src.add_listener(h, event_name=etype, **kw)]
-      elif form == "al-infer": toks = [src.add_listener(h, **kw)]          # name taken from '_handle_<Event>'
-      elif form == "bind":                                                   # every _handle_<Event> method of the owner
-        names = ["E1", "E2"]
-        toks = src.addListeners(o, **kw)
-      elif form == "bind-px":                                                # every _handle_px_<Event> method
-        toks = self.rv.autoBindEvents(o, src, "px", bool(weak), prio)
+      if pos:
+        if form == "class": toks = [src.addListener(et, h, once, weak, prio)]
+        elif form == "byname": toks = [src.addListenerByName(etype, h, once, weak, prio)]
+        elif form == "al-type": toks = [src.add_listener(h, et, None, once, weak, prio)]
+        elif form == "al-name": toks = [src.add_listener(h, None, etype, once, weak, prio)]
+        elif form == "al-infer": toks = [src.add_listener(h, None, None, once, weak, prio)]
+        elif form in ("bind", "bind+px"): toks = src.addListeners(o, px, weak, prio)
+        elif form in ("listen", "listen-px"): toks = o.listenTo(src, px, weak, prio)
+        elif form in ("auto", "bind-px"): toks = self.rv.autoBindEvents(o, src, px, weak, prio)
+      else:
+        if form == "class": toks = [src.addListener(et, h, **kw)]
+        elif form == "byname": toks = [src.addListenerByName(etype, h, **kw)]
+        elif form == "al-type": toks = [src.add_listener(h, event_type=et, **kw)]
+        elif form == "al-name": toks = [src.add_listener(h, event_name=etype, **kw)]
+        elif form == "al-infer": toks = [src.add_listener(h, **kw)]          # name taken from '_handle_<Event>'
+        elif form in ("bind", "bind+px"): toks = src.addListeners(o, **kw)
+        elif form in ("listen", "listen-px"): toks = o.listenTo(src, **kw)
+        elif form in ("auto", "bind-px"): toks = self.rv.autoBindEvents(o, src, **kw)
     except self.rv.ReventError:
       if etype == "E3": return "rejected"
       self.fail("subscribe-rejected", "subscribing to declared event %s was rejected" % etype)
@@ -352,7 +397,7 @@ class World (object):
     for tok, name in zip(toks, names):
       s = Sub(sid=len(self.subs), hid=hid, etype=name, prio=prio, once=bool(once),
               weak=bool(weak), token=tok, alive=True, spent=None, gone=False,
-              meth=("_handle_" + name if form == "bind" else meth))
+              meth=("_handle_" + name if form in AUTO_FORMS and not px else meth))
       self.subs.append(s)
       for d in self.stack:
         if d.etype == name: d.events.append(("add", hid))
@@ -415,6 +460,22 @@ class World (object):
     n = self.model_remove(lambda x: x is s, None)
     return r, n
 
+  def do_unsub_bulk (self, idx, form):
+    """One removeListeners() call naming several subscriptions; every one of them is over afterwards."""
+    items = []; preds = []
+    for pos, j in enumerate(idx):
+      s = self.subs[j]
+      f = form if form != "mixed" else ("tuple", "eid", "handler")[pos % 3]
+      if f == "tuple": items.append(s.token); preds.append(lambda x, s=s: x is s)
+      elif f == "eid": items.append(s.token[1]); preds.append(lambda x, s=s: x is s)
+      else:
+        if s.alive and s.weak: self.feats.add("unsub.handler.weak")
+        items.append(getattr(self.owner(s.hid), s.meth))
+        preds.append(lambda x, s=s: x.hid == s.hid and x.meth == s.meth)
+    r = self.src.removeListeners(items)
+    for p in preds: self.model_remove(p, None)
+    return r
+
   def do_raise (self, etype, form):
     et = self.E[etype]
     d = Delivery(etype, self.alive_subs(etype), form)
@@ -434,7 +495,10 @@ class World (object):
         raise
       except self.rv.ReventError as e:
         raised = repr(e)          # (not the exception object: its traceback would keep handler owners alive)
-        if etype != "E3":
+        if any(x[0] == "exc-revent" for x in d.events):
+          pass                    # raised by a handler: with error suppression "never propagates" and "the library's
+                                  # rejection signal passes" contradict each other - both outcomes are accepted
+        elif etype != "E3":
           self.fail("raise-rejected", "raising declared event %s raised ReventError: %s" % (etype, e))
       except ValueError as e:
         raised = repr(e)          # (not the exception object: its traceback would keep handler owners alive)
@@ -492,30 +556,58 @@ def ops_two (w):
 
 
 FORMS1 = ("class", "byname", "al-type", "al-name", "al-infer")     # forms that make one subscription
+# name-based wiring: source.addListeners(sink) / sink.listenTo(source) / autoBindEvents(sink, source), each without a
+# method prefix (binds _handle_E1 and _handle_E2 at once) and with one (binds _handle_px_E1 alone)
+AUTO_FORMS = ("bind", "bind+px", "listen", "listen-px", "auto", "bind-px")
+PX_FORMS = ("bind+px", "listen-px", "bind-px")
 NF = 2            # handler identities of the third family
+
+
+def bulk_lists (w, k, forms):
+  """Bulk unsubscription: removeListeners(list) with every sub-list (>= 2 entries, in subscription order and
+  reversed) of the first k subscriptions - live or already over (stale entries) - x the ways an entry is named:
+  the (type,id) pairs subscribing returned, bare ids, handler references, or the three mixed by position."""
+  n = min(len(w.subs), k)
+  ops = []
+  for r in range(2, n + 1):
+    for idx in itertools.combinations(range(n), r):
+      for order in (idx, idx[::-1]):
+        for form in forms:
+          if form in ("handler", "mixed") and any(w.subs[j].hid not in w.owners for j in order): continue
+          ops.append(("unsub-bulk", order, form))
+  return ops
 
 
 def ops_forms (w, thorough):
   """Third family: the first handler identity subscribes to E1 through every API form x once x weak x priority{0,1}
   (auto-binding: x weak x priority; it binds E1 and E2 at once, or E1 alone with a method prefix); the second identity
-  through {class, by-name} x weak x priority{0,1} and auto-binding (thorough: the full product as well)."""
+  through {class, by-name} x weak x priority{0,1} and auto-binding (thorough: the full product as well).
+  Fourth family (w.spell): the first identity's optional arguments are all given positionally, through every one of
+  these forms and through all six name-based wiring calls; the wiring calls the third family lacks also by keyword."""
   ops = []
   used = set(s.hid for s in w.subs)
   nxt = min([h for h in range(NF) if h not in used] or [NF])
   for hid in range(min(nxt + 1, NF)):
     if hid not in w.owners and hid in used: continue       # owner dropped
     busy = lambda et: any(s.alive and s.hid == hid and s.etype == et for s in w.subs)
-    full = (hid == 0) or thorough
+    full = (hid == 0) or (thorough and not w.spell)
+    pos = 1 if (w.spell and hid == 0) else 0
     if not busy("E1"):
       for form in (FORMS1 if full else ("class", "byname")):
         for weak in (0, 1):
           for once in ((0, 1) if full else (0,)):
             for prio in (0, 1):
-              ops.append(("sub3", hid, "E1", prio, once, weak, form))
+              ops.append(("sub3", hid, "E1", prio, once, weak, form, pos))
       for weak in (0, 1):
         for prio in (0, 1):
-          if full: ops.append(("sub3", hid, "E1", prio, 0, weak, "bind-px"))
-          if not busy("E2"): ops.append(("sub3", hid, "E1", prio, 0, weak, "bind"))
+          if pos:
+            for form in AUTO_FORMS:
+              if form in PX_FORMS or not busy("E2"): ops.append(("sub3", hid, "E1", prio, 0, weak, form, 1))
+            for form in ("bind+px", "listen", "listen-px", "auto"):
+              if form in PX_FORMS or not busy("E2"): ops.append(("sub3", hid, "E1", prio, 0, weak, form, 0))
+          else:
+            if full: ops.append(("sub3", hid, "E1", prio, 0, weak, "bind-px", 0))
+            if not busy("E2"): ops.append(("sub3", hid, "E1", prio, 0, weak, "bind", 0))
   for hid in sorted(used):
     if hid in w.owners:
       for meth in sorted(set(s.meth for s in w.subs if s.hid == hid)):
@@ -523,21 +615,39 @@ def ops_forms (w, thorough):
   for j, s in enumerate(w.subs[:2]):
     for form in ("eid", "tuple", "list"):
       ops.append(("unsub-token", j, form))
+  ops += bulk_lists(w, 3 if thorough else 2, ("tuple", "eid", "handler", "mixed"))
   ops.append(("raise", "E1", "inst"))
   ops.append(("raise", "E1", "class"))
   ops.append(("raise", "E2", "inst"))
   for form in ("byname", "al-type", "al-name", "al-infer"):
-    ops.append(("sub3", NF - 1, "E3", 0, 0, 0, form))
-  ops.append(("sub3", NF - 1, "E3", 0, 0, 1, "byname"))
+    ops.append(("sub3", NF - 1, "E3", 0, 0, 0, form, pos))
+  ops.append(("sub3", NF - 1, "E3", 0, 0, 1, "byname", pos))
   for hid in sorted(used):
     if hid in w.owners and any(s.weak for s in w.subs if s.hid == hid):
       ops.append(("drop", hid))
   return ops
 
 
+def ops_proto (w):
+  """Fifth family (return-value protocol): up to three handlers on one event, plain or one-shot, priority {0,1};
+  raise in all four forms; every invocation chooses among ALL behaviours (the extended list)."""
+  ops = []
+  used = set(s.hid for s in w.subs)
+  nxt = min([h for h in range(NH) if h not in used] or [NH])
+  for hid in range(min(nxt + 1, NH)):
+    if any(s.alive and s.hid == hid for s in w.subs): continue
+    for prio in (0, 1):
+      for mode in ("plain", "once"):
+        ops.append(("sub", hid, "E1", prio, mode))
+  for form in ("inst", "class", "noerr", "noerr-class"):
+    ops.append(("raise", "E1", form))
+  return ops
+
+
 def ops_alphabet (w, thorough):
   if w.two: return ops_two(w)
   if w.forms: return ops_forms(w, thorough)
+  if w.proto: return ops_proto(w)
   """Enabled top-level operations in the current state (symmetry: handler identities are
   interchangeable, so a fresh identity is only introduced in index order)."""
   ops = []
@@ -565,6 +675,7 @@ def ops_alphabet (w, thorough):
   for j, s in enumerate(w.subs[:3]):
     for form in ("eid", "tuple", "eid+type"):
       ops.append(("unsub-token", j, form))
+  if thorough: ops += bulk_lists(w, 3, ("tuple",))
   for form in ("inst", "class", "noerr"):
     ops.append(("raise", "E1", form))
   ops.append(("raise", "E2", "inst"))
@@ -587,14 +698,16 @@ def apply_op (w, op):
     if et == "E3": w.feats.add("E3")
     w.do_sub(hid, et, prio, mode)
   elif k == "sub3":
-    _, hid, et, prio, once, weak, form = op
+    _, hid, et, prio, once, weak, form = op[:7]
+    pos = bool(op[7]) if len(op) > 7 else False
     if form != "class": w.feats.add("sub." + form)
+    if pos: w.feats.add("sub.pos")
     if once: w.feats.add("sub.once")
     if weak: w.feats.add("sub.weak")
     if prio > 0: w.feats.add("sub.prio1")
     if et == "E3": w.feats.add("E3")
     try:
-      w.do_sub(hid, et, prio, None, form=form, once=once, weak=weak)
+      w.do_sub(hid, et, prio, None, form=form, once=once, weak=weak, pos=pos)
     except Stop: raise
     except Exception as e:
       w.fail("internal-error", "subscribing (%s form) failed inside the library: %s: %s" % (form, type(e).__name__, e))
@@ -630,6 +743,14 @@ def apply_op (w, op):
     except Stop: raise
     except Exception as e:
       w.fail("internal-error", "removeListener (%s form) failed inside the library: %s: %s" % (op[2], type(e).__name__, e))
+  elif k == "unsub-bulk":
+    w.feats.add("unsub.bulk")
+    if op[2] != "tuple": w.feats.add("unsub.bulk." + op[2])
+    try:
+      w.do_unsub_bulk(op[1], op[2])
+    except Stop: raise
+    except Exception as e:
+      w.fail("internal-error", "removeListeners (list of %d, %s form) failed inside the library: %s: %s" % (len(op[1]), op[2], type(e).__name__, e))
   elif k == "raise":
     if op[2] != "inst": w.feats.add("raise." + op[2])
     if op[1] == "E3": w.feats.add("E3")
@@ -646,10 +767,14 @@ def apply_op (w, op):
       w.fail("internal-error", "operation %r on the neighbouring source failed inside the library: %s: %s" % (op[1:], type(e).__name__, e))
 
 
-def make_run (rv, rep, depth, thorough, two=False, forms=False):
+def make_run (rv, rep, depth, thorough, two=False, forms=False, fam=None):
+  if fam is None: fam = 1 if two else 2 if forms else 0
+  two = (fam == 1); forms = fam in (2, 3)
   def run (ctx):
     w = World(rv, ctx, rep, two)
     w.forms = forms
+    w.spell = (fam == 3)
+    if fam == 4: w.proto = True; w.nbeh = len(BEH)
     try:
       for step in range(depth):
         ops = ops_alphabet(w, thorough)
@@ -711,17 +836,17 @@ def explains (known_key, key):
 
 def _worker (args):
   first_ops, depth, dev, thorough, fam = args
-  two = (fam == 1); forms = (fam == 2)
+  two = (fam == 1); forms = fam in (2, 3)
   rv = _import()
   rep = Report(PID, "model_checking")
-  run = make_run(rv, rep, depth, thorough, two, forms)
+  run = make_run(rv, rep, depth, thorough, fam=fam)
   def on_exec (ctx, w):
     rep.evaluations += 1
     rep.outcome((tuple(w.hist[-6:]), w.violated and w.violated[0]))
     if w.violated:
       clause, what = w.violated
       rep.violation(key_of(clause, w.feats), what,
-                    dict(choices=ctx.choices(), depth=depth, two=two, forms=forms, thorough=thorough, history=w.hist))
+                    dict(choices=ctx.choices(), depth=depth, two=two, forms=forms, fam=fam, thorough=thorough, history=w.hist))
     elif rep.evaluations % 50000 == 1:
       rep.sample(dict(history=w.hist))
   old = sys.stderr; sys.stderr = io.StringIO()
@@ -747,6 +872,41 @@ def minimal_keys (rep):
   rep.violations = keep
 
 
+def plan_items (cfg, rv, rep=None):
+  """Work items (first operation, depth, deviations, thorough/full, family), partitioned on the first operation."""
+  rep = rep or Report(PID, "model_checking")
+  plans = cfg.pick([(3, 2)], [(4, 1), (3, 3)])
+  w0 = World(rv, Ctx([]), rep)
+  n0 = len(ops_alphabet(w0, not cfg.quick)) + 1
+  items = [([f], d, v, not cfg.quick, 0) for (d, v) in plans for f in range(n0)]
+  # two sources side by side (reduced alphabet on the first one)
+  w0.two = True
+  n2 = len(ops_alphabet(w0, False)) + 1
+  plans2 = cfg.pick([(4, 0), (3, 1)], [(5, 1), (4, 2)])
+  items += [([f], d, v, not cfg.quick, 1) for (d, v) in plans2 for f in range(n2)]
+  rep.bound["two_source_plans"] = [dict(depth=d, deviations=v) for d, v in plans2]
+  # subscription API forms x options (third family)
+  w0.two = False; w0.forms = True
+  n3 = len(ops_alphabet(w0, False)) + 1          # (the first operation is the same with and without 'full')
+  # (depth, deviations, full): full = the second identity also goes through the whole product of forms and options
+  plans3 = cfg.pick([(3, 0, False), (2, 2, False)], [(3, 0, True), (2, 2, True), (3, 1, False), (4, 0, False)])
+  items += [([f], d, v, full, 2) for (d, v, full) in plans3 for f in range(n3)]
+  rep.bound["api_form_plans"] = [dict(depth=d, deviations=v, handlers=NF, second_identity_full_product=full) for d, v, full in plans3]
+  # positional spellings + every name-based wiring call (fourth family)
+  w0.spell = True
+  n4 = len(ops_alphabet(w0, False)) + 1
+  plans4 = cfg.pick([(3, 0), (2, 1)], [(3, 1), (2, 2)])
+  items += [([f], d, v, not cfg.quick, 3) for (d, v) in plans4 for f in range(n4)]
+  rep.bound["spelling_plans"] = [dict(depth=d, deviations=v, handlers=NF) for d, v in plans4]
+  # return-value protocol with the extended behaviour list (fifth family)
+  w0.forms = False; w0.spell = False; w0.proto = True
+  n5 = len(ops_alphabet(w0, False)) + 1
+  plans5 = cfg.pick([(3, 2)], [(4, 1), (3, 3)])
+  items += [([f], d, v, not cfg.quick, 4) for (d, v) in plans5 for f in range(n5)]
+  rep.bound["return_protocol_plans"] = [dict(depth=d, deviations=v, handlers=NH, behaviours=len(BEH)) for d, v in plans5]
+  return items
+
+
 def run (cfg):
   rv = _import()
   # thorough: depth 4 with one non-default handler behaviour, and depth 3 with up to three
@@ -764,34 +924,26 @@ def run (cfg):
               "{addListeners(owner) binding _handle_E1 and _handle_E2 at once, autoBindEvents with a method prefix} x weak x priority; the second identity through {class, by-name} x weak x priority "
               "and auto-binding; by-name / inferred / event_type= subscription of the undeclared type; unsubscribe by handler method, eid, (type,eid) and "
               "removeListeners([id]); raise E1 instance/class form, raise E2; drop owner; depth 3 with default behaviours and depth 2 with <=2 non-default ones (thorough: the same with the full product for the second identity, plus depth 3 with <=1 and depth 4 with 0 non-default behaviours). "
+              "Bulk unsubscription (third and fourth family; first family, pairs only, in the thorough tier): removeListeners(list) with every sub-list of >=2 of the first two (thorough three) subscriptions, live or stale, in subscription order and reversed, "
+              "entries named as (type,id) pairs / bare ids / handler references / the three mixed by position. "
+              "Fourth family (spellings and wiring calls): the first identity gives every optional argument positionally, in the documented order, through each of the five subscribe forms x once x weak x priority and "
+              "each of the six name-based wiring calls {source.addListeners(sink), sink.listenTo(source), autoBindEvents(sink, source)} x {no prefix, method prefix} x weak x priority (the wiring calls the third family lacks also by keyword); "
+              "second identity, unsubscribe, raise, drop operations as in the third family; depth 3 with default behaviours and depth 2 with <=1 non-default one (thorough: depth 3 with <=1, depth 2 with <=2). "
+              "Fifth family (return-value protocol): up to %d handlers on one event, plain or one-shot x priority{0,1}, raise in the four forms {instance, class, no-errors, no-errors class}, every invocation choosing among %d behaviours "
+              "(the %d above plus: return EventContinue, set event.halt=True and return None, set event.halt=True and return EventContinue, raise ReventError), depth 3 with <=2 non-default ones (thorough: depth 4 with <=1, depth 3 with <=3). "
               "In all families the source's listener count is read back after every top-level operation and compared with the number of live subscriptions of the model, and every history "
               "ends with a teardown: all owners of weakly subscribed handlers are dropped, the count is read back, the event(s) raised once more and the count read back again. "
               "distinct = distinct (history tail, verdict) digests"
-              % (depth, NH, len(BEH), dev, NF))
+              % (depth, NH, NBEH0, dev, NF, NH, len(BEH), NBEH0))
   rep.bound = dict(plans=[dict(depth=d, deviations=v) for d, v in plans], handlers=NH)
   rep.assumptions = ["handler identities are interchangeable (symmetry reduction)",
-                     "ReventError raised by a handler is outside the alphabet",
+                     "ReventError raised by a handler (fifth family only): whether an error-suppressed raise lets it through is not judged (the library re-raises it on purpose as its own rejection signal); a plain raise must let it through",
+                     "a one-shot or self-removing handler that ran in a nested (re-entrant) raise of the same event may or may not run again in the enclosing delivery whose turn for it had not come yet (the two clauses of the statement contradict each other there)",
                      "whether a handler added during a delivery takes part in it, and whether a handler removed by another before its turn still runs, is unconstrained",
                      "the listener count is read through EventMixin._eventMixin_get_listener_count() between top-level operations only (never inside a delivery)",
                      "handlers behave by default (return None) during the teardown raises and the third family's E2 probe (no choice points there)",
                      "the order of the ids returned by auto-binding and the return values of removeListener(s) are not judged"]
-  # partition on the first operation
-  w0 = World(rv, Ctx([]), rep)
-  n0 = len(ops_alphabet(w0, not cfg.quick)) + 1
-  items = [([f], d, v, not cfg.quick, 0) for (d, v) in plans for f in range(n0)]
-  # two sources side by side (reduced alphabet on the first one)
-  w0.two = True
-  n2 = len(ops_alphabet(w0, False)) + 1
-  plans2 = cfg.pick([(4, 0), (3, 1)], [(5, 1), (4, 2)])
-  items += [([f], d, v, not cfg.quick, 1) for (d, v) in plans2 for f in range(n2)]
-  rep.bound["two_source_plans"] = [dict(depth=d, deviations=v) for d, v in plans2]
-  # subscription API forms x options (third family)
-  w0.two = False; w0.forms = True
-  n3 = len(ops_alphabet(w0, False)) + 1          # (the first operation is the same with and without 'full')
-  # (depth, deviations, full): full = the second identity also goes through the whole product of forms and options
-  plans3 = cfg.pick([(3, 0, False), (2, 2, False)], [(3, 0, True), (2, 2, True), (3, 1, False), (4, 0, False)])
-  items += [([f], d, v, full, 2) for (d, v, full) in plans3 for f in range(n3)]
-  rep.bound["api_form_plans"] = [dict(depth=d, deviations=v, handlers=NF, second_identity_full_product=full) for d, v, full in plans3]
+  items = plan_items(cfg, rv, rep)
   for r in pmap(_worker, items, cfg.workers, seed=cfg.seed):
     rep.merge(r)
   rep.state_count = rep.evaluations
@@ -802,7 +954,7 @@ def run (cfg):
 def replay (cfg, data):
   rv = _import()
   rep = Report(PID, "model_checking")
-  runf = make_run(rv, rep, data["depth"], data.get("thorough", not cfg.quick), data.get("two", False), data.get("forms", False))
+  runf = make_run(rv, rep, data["depth"], data.get("thorough", not cfg.quick), data.get("two", False), data.get("forms", False), data.get("fam"))
   ctx = Ctx(list(data["choices"]))
   w = runf(ctx)
   text = "\n".join(w.hist) + "\n=> %r" % (w.violated,)
